@@ -27,7 +27,7 @@ META = {
              "fault fired"),
     "abstract_measure": "distinct (layout, blocksize class) pairs",
     "gates": {"quick": {"single_file": 1000, "multi_file": 1000, "small_blocksize": 800, "multi_open": 1500,
-                        "io_error": 150, "quoted_field": 500},
+                        "io_error": 150, "quoted_field": 500, "read_names_header": 500},
               "thorough": {"single_file": 1000}},
     "anchors": ["dask/dataframe/io/csv.py", "dask/bytes/core.py"],
     "real": ["dask.dataframe.io.csv.to_csv/_write_csv/read_csv/text_blocks_to_pandas/pandas_read_text",
@@ -191,8 +191,26 @@ def run_one(tape, cfg):
                 got = None
                 if rpaths is not None:
                     rkw = {"blocksize": blocksize}
+                    pkw = {}
                     if index:
-                        rkw["index_col"] = False
+                        pkw["index_col"] = False
+                    # reader options that must not change which rows come back
+                    ropt = tape.weighted([(3, "default"), (1, "header0"), (2, "names_header0"),
+                                          (1, "usecols")], "ropt")
+                    first_text = whole if whole is not None else texts[names[0]]
+                    filecols = list(pd.read_csv(io.StringIO(first_text), nrows=0, **pkw).columns)
+                    back = None
+                    if ropt == "header0":
+                        pkw["header"] = 0
+                    elif ropt == "names_header0":
+                        pkw["header"] = 0
+                        pkw["names"] = [f"c{j}" for j in range(len(filecols))]
+                        back = dict(zip(pkw["names"], filecols))
+                        out.probe("read_names_header")
+                    elif ropt == "usecols":
+                        keep = [c for c in filecols if c in ("i", "f", "s") and tape.chance(2, 3, "keep")]
+                        pkw["usecols"] = keep or ["i"]
+                    rkw.update(pkw)
                     try:
                         with rrun:
                             ddf = dd.read_csv(rpaths, **rkw)
@@ -207,13 +225,14 @@ def run_one(tape, cfg):
                             problem = ("read_raised", f"OSError at {exc_site(rerr)}: {rerr}")
                     else:
                         if whole is not None:
-                            ref = pd.read_csv(io.StringIO(whole), **({"index_col": False} if index else {}))
+                            ref = pd.read_csv(io.StringIO(whole), **pkw)
                         else:
-                            ref = pd.concat([pd.read_csv(io.StringIO(texts[nm]),
-                                                         **({"index_col": False} if index else {}))
-                                             for nm in names])
+                            ref = pd.concat([pd.read_csv(io.StringIO(texts[nm]), **pkw) for nm in names])
                         a = got.reset_index(drop=True)
                         b = ref.reset_index(drop=True)
+                        if back is not None and list(a.columns) == list(b.columns):
+                            a = a.rename(columns=back)
+                            b = b.rename(columns=back)
                         if list(a.columns) != list(b.columns) or len(a) != len(b):
                             problem = ("read_shape", f"read_csv(blocksize={blocksize}) columns/rows "
                                                      f"{list(a.columns)}/{len(a)} != pandas {list(b.columns)}/{len(b)}")
@@ -228,6 +247,8 @@ def run_one(tape, cfg):
                         if problem is None:
                             # round trip against the original frame (ints, exact floats, strings)
                             for c in ("i", "f", "s"):
+                                if c not in a.columns:
+                                    continue
                                 x = a[c].astype(object).where(a[c].notna(), None).tolist()
                                 y = df[c].astype(object).where(df[c].notna(), None).tolist()
                                 if x != y:
